@@ -95,5 +95,6 @@ package freelist
 // Open as seen by package store: the freelist holds one open file.
 //@ func Open(path string) (fl *FreeList, err error)  property C17
 //@   fresh fl
+//@   ghost at return: fl.$pending = ite(err == nil, false, fl.$pending)
 //@   ensures err == nil ==> fl != nil && fl.file != nil && fl.file.$open && fresh(fl.file) && fl.writer != nil && !fl.$pending
 //@   ensures err != nil ==> fl == nil
